@@ -423,4 +423,32 @@ func runC14Concurrent(r *Run, rng *Rng, hn int) {
 		}
 		_ = on
 	}
+	// bounded progress once faults stop: a client that follows the protocol's
+	// answers (409 tells the recorded size) gets a cosignature within 3 requests
+	e.In.Plan = nil
+	recSize, recRoot, _ := e.recorded(l)
+	chain := -1
+	for ci, c := range l.Chains {
+		if int(recSize) < len(c.lh) && c.root(int(recSize)) == recRoot {
+			chain = ci
+			break
+		}
+	}
+	if chain < 0 {
+		return // the recorded tree is at the end of every chain: nothing to extend
+	}
+	old := int(recSize)
+	for try := 0; try < 3; try++ {
+		q := c14Req{Chain: chain, Old: old, New: int(recSize) + 1, Proof: "correct", Sig: "valid", Body: "ok"}
+		rec := e.Post("/add-checkpoint", buildC14(e, l, rng.Fork(fmt.Sprint("p", try)), q), nil)
+		r.Eval(1)
+		if rec.Code == 200 {
+			r.Count("progress_after_faults", 1)
+			return
+		}
+		if rec.Code == 409 {
+			fmt.Sscanf(rec.Body.String(), "%d", &old)
+		}
+	}
+	e.violate("witness-stuck-after-faults", "after the faults stopped (%s) a client following the protocol got no cosignature for size %d within 3 requests", fault, recSize+1)
 }
